@@ -74,7 +74,9 @@ def ctor_refs(F, name):
 def r3(F, R):
     ex = roles.execute(F)
     # START := callee of EXECUTE in the bookkeeping type whose result is sent before the pushes
-    bk_calls = [(s, t, F.callee_body(t)) for s, t in ex.calls() if F.callee_body(t) is not None and (F.callee_body(t).impl or {}).get("self_adt") == BK]
+    # (calls made from closures of EXECUTE — `rule.and_then(|r| storage.rule_scenario_finished(..))` — count as EXECUTE's)
+    bk_calls = [(A.lift_site(F, s, ex), t, F.callee_body(t)) for nb in F.nested(ex) for s, t in nb.calls()
+                if F.callee_body(t) is not None and (F.callee_body(t).impl or {}).get("self_adt") == BK and A.lift_site(F, s, ex) is not None]
     start = [x for x in bk_calls if any(f[2]["path"].endswith("feature_started") for nb in F.nested(x[2]) for f in _refs_in(F, nb, "feature_started"))]
     if len(start) != 1:
         raise Unverifiable(f"START role: {len(start)}")
